@@ -17,6 +17,7 @@ import (
 //   A <canonical AST>                      or  A ERR / A PANIC
 //   V <verdict per doc: T F E P>           through query.FilterFunctionFromQuery; B = build error, P = panic
 //   S <verdict per doc: T F>               through syzgydb.BuildFilter (errors reject); B = build error
+//   R same | R <verdicts>                  the text submitted once more through query.FilterFunctionFromQuery
 
 func hexOf(b []byte) string {
 	if len(b) == 0 {
@@ -214,8 +215,15 @@ func runFilter() {
 		}
 		fmt.Fprintln(out, tokensLine(text))
 		fmt.Fprintln(out, astLine(text))
-		fmt.Fprintln(out, verdictLine(text, docs))
+		v1 := verdictLine(text, docs)
+		fmt.Fprintln(out, v1)
 		fmt.Fprintln(out, searchLine(text, docs))
+		// the same text submitted again, after other entry points have compiled it: the outcome is a function of the text
+		if v2 := verdictLine(text, docs); v2 == v1 {
+			fmt.Fprintln(out, "R same")
+		} else {
+			fmt.Fprintln(out, "R"+v2[1:])
+		}
 	}
 	out.Flush()
 }
